@@ -1,2 +1,116 @@
-From AM Require Import Base.Prelude Model.Group.
-Theorem c04_placeholder : True. Proof. exact I. Qed.
+(* C04 — Notify only on change or after repeat_interval; repeats arrive on time.
+   Model: Model/Group.v (one aggregation group + its receiver pipeline + its notification-log entries).
+   Only statements; proofs are in Proofs/GroupProofs.v. *)
+From AM Require Import Base.Prelude Model.Group Proofs.GroupProofs.
+
+(* The dedup decision is "do not notify" exactly when none of the property's reasons holds: (no entry and
+   something fires) / an alert fires that the previous notification did not list firing / nothing fires but the
+   previous one listed firing alerts / send_resolved and a resolved alert not yet listed resolved / the repeat
+   interval has elapsed (strictly) since the previous notification was logged. For ALL entries, batches, settings. *)
+Theorem c04_decision_exact e F R sr rep now :
+  needs_update e F R sr rep now = RNo <-> notify_cond e F R sr rep now = false.
+Proof. exact (needs_update_no_iff e F R sr rep now). Qed.
+
+Theorem c04_reason_names_its_cause e F R sr rep now :
+  match needs_update e F R sr rep now with
+  | RNo => notify_cond e F R sr rep now = false
+  | RFirst => (e = None /\ F <> []) \/ (exists en, e = Some en /\ n_firing en = [] /\ subset F (n_firing en) = false)
+  | RNewAlerts => exists en, e = Some en /\ subset F (n_firing en) = false /\ n_firing en <> []
+  | RAllResolved => exists en, e = Some en /\ F = [] /\ n_firing en <> []
+  | RNewResolved => exists en, e = Some en /\ sr = true /\ F <> [] /\ subset F (n_firing en) = true /\ subset R (n_resolved en) = false
+  | RRepeat => exists en, e = Some en /\ F <> [] /\ subset F (n_firing en) = true /\ n_ts en < now - rep
+  end.
+Proof. exact (needs_update_reason e F R sr rep now). Qed.
+
+(* In EVERY accepted run (all alert timelines, timer interleavings, receiver fault scripts, log GC and gossip
+   merges), every notification handed to an integration carries a dedup reason other than "do not notify", was
+   produced by a delivery attempt of a chain in its retry loop, and lists only alerts of that flush's batch. *)
+Theorem c04_every_notification_justified cfg t0 h s outs i r sent oc :
+  run cfg (init cfg t0) h = Some (s, outs) -> In (ONotify i r sent oc) outs -> r <> RNo.
+Proof. intros H Hin. exact (proj1 (every_notification_justified cfg t0 h s outs i r sent oc H Hin)). Qed.
+
+(* "Compared with the previous one delivered": without log GC / gossip merges the log entry a decision reads is
+   the fold of nflog.Log over exactly the log writes the run has shown so far for that integration — and each of
+   those accompanies a successful send of that very batch (C20/C01: [attempt_outputs]) or is the empty-firing
+   bookkeeping write of an integration with send_resolved off. *)
+Theorem c04_log_entry_is_the_delivery_history cfg t0 h s outs i ic :
+  run cfg (init cfg t0) h = Some (s, outs) -> forallb (fun d => no_gc_merge (snd d)) h = true ->
+  g_ints cfg !! i = Some ic ->
+  s_nflog s !! i = Some (foldl (apply_log (g_retention cfg) (g_repeat cfg)) None (logs_of i outs)).
+Proof. intros H Hn Hi. exact (run_nflog_fold cfg h _ _ _ i None H Hn (init_nflog cfg t0 i ic Hi)). Qed.
+
+Theorem c04_newer_log_replaces ret rep now cur F R :
+  0 <= ret -> 0 <= rep -> (forall p, cur = Some p -> n_ts p < now) ->
+  nf_log ret rep now cur F R = Some (mkN F R now (log_exp ret rep now)).
+Proof. exact (nf_log_newer ret rep now cur F R). Qed.
+
+(* An unchanged firing group is re-notified exactly when more than repeat_interval has passed since the previous
+   notification was logged — no earlier, and at the first flush after that. *)
+Theorem c04_unchanged_group_repeats_exactly_when_due en F R sr rep now :
+  F <> [] -> subset F (n_firing en) = true -> (sr = true -> subset R (n_resolved en) = true) ->
+  (needs_update (Some en) F R sr rep now <> RNo <-> n_ts en < now - rep).
+Proof. exact (unchanged_group_repeat en F R sr rep now). Qed.
+
+(* ... and flushes come on time: a tick is processed exactly at the armed deadline, or at the instant the previous
+   flush ended if that was later; the next deadline is one group_interval later; the clock cannot pass an armed
+   deadline of an idle live group; a flush in flight cannot outlive its context deadline. Hence consecutive flushes
+   are at most max(group_interval, flush duration <= max(group_interval, MinTimeout) + cluster wait) apart. *)
+Theorem c04_tick_on_time cfg s t tau sup s' o :
+  step cfg s t (ETick tau sup) = Some (s', o) ->
+  exists g, s_group s = Some g /\ gr_flight g = None /\ tau = gr_deadline g /\ t = Z.max (gr_deadline g) (s_clock s) /\
+            exists g', s_group s' = Some g' /\ gr_deadline g' = t + g_interval cfg /\ gr_alerts g' = gr_alerts g.
+Proof. exact (tick_time_exact cfg s t tau sup s' o). Qed.
+
+Theorem c04_clock_cannot_pass_deadline cfg s t e s' o g :
+  step cfg s t e = Some (s', o) -> s_group s = Some g -> gr_flight g = None ->
+  t <= Z.max (gr_deadline g) (s_clock s).
+Proof. exact (overdue_impossible cfg s t e s' o g). Qed.
+
+Theorem c04_flush_ends_by_context_deadline cfg s t e s' o g fl :
+  step cfg s t e = Some (s', o) -> s_group s = Some g -> gr_flight g = Some fl ->
+  t <= Z.max (fl_deadline fl) (s_clock s).
+Proof. exact (flight_bounded cfg s t e s' o g fl). Qed.
+
+(* A notification listing no firing alert needs a logged notification that listed firing alerts; a group of only
+   resolved alerts with no log entry never notifies. *)
+Theorem c04_no_firing_notification_needs_prior_firing ent R sr rep now :
+  needs_update ent [] R sr rep now <> RNo -> exists en, ent = Some en /\ n_firing en <> [].
+Proof. exact (no_firing_needs_prior_firing ent R sr rep now). Qed.
+
+Theorem c04_only_resolved_group_is_silent R sr rep now : needs_update None [] R sr rep now = RNo.
+Proof. exact (only_resolved_no_entry_silent R sr rep now). Qed.
+
+(* Across log GC: as long as repeat_interval does not exceed the retention, an entry cannot be collected before
+   its repeat is due (its expiry is min(retention, 2*repeat_interval) after the notification). *)
+Theorem c04_entry_outlives_repeat ret rep now : 0 < rep -> rep <= ret -> now + rep <= log_exp ret rep now.
+Proof. exact (entry_outlives_repeat ret rep now). Qed.
+Theorem c04_gc_keeps_unexpired t e : t < n_exp e -> nf_gc t (Some e) = Some e.
+Proof. exact (gc_keeps_unexpired t e). Qed.
+
+(* The log changes only by a log write (visible as OLog in the same step), GC or a gossip merge. *)
+Theorem c04_log_changes_only_by_log_gc_merge cfg s t e s' o :
+  step cfg s t e = Some (s', o) -> s_nflog s' <> s_nflog s ->
+  (exists i F R, In (OLog i F R t) o) \/ e = ENflogGC \/ (exists i en, e = ENflogMerge i en).
+Proof. exact (nflog_changes_only_by_log cfg s t e s' o). Qed.
+
+(* ---- non-vacuity: a concrete accepted run with a first notification, a suppressed repeat and a due repeat ---- *)
+Definition ex_cfg := mkG 30 300 1000 310 100000 [mkI true].
+Definition ex_run : list (Z * ev) :=
+  [(0, EInsert (mkA 1 0 0 0)); (30, ETick 30 []); (30, EDedup 0); (31, EAttempt 0 OK); (31, EFlushEnd);
+   (330, ETick 330 []); (330, EDedup 0); (330, EFlushEnd);
+   (630, ETick 630 []); (630, EDedup 0); (630, EFlushEnd);
+   (930, ETick 930 []); (930, EDedup 0); (930, EFlushEnd);
+   (1230, ETick 1230 []); (1230, EDedup 0); (1231, EAttempt 0 OK); (1231, EFlushEnd)].
+Example c04_nonvacuous :
+  match run ex_cfg (init ex_cfg 0) ex_run with
+  | Some (_, outs) => outs = [OFlush [mkF 1 false 0]; ONotify 0 RFirst [mkF 1 false 0] OK; OLog 0 [1] [] 31; OFlushEnd true;
+                              OFlush [mkF 1 false 0]; OFlushEnd true; OFlush [mkF 1 false 0]; OFlushEnd true;
+                              OFlush [mkF 1 false 0]; OFlushEnd true;
+                              OFlush [mkF 1 false 0]; ONotify 0 RRepeat [mkF 1 false 0] OK; OLog 0 [1] [] 1231; OFlushEnd true]
+  | None => False
+  end.
+Proof. vm_compute. reflexivity. Qed.
+
+Print Assumptions c04_decision_exact.
+Print Assumptions c04_every_notification_justified.
+Print Assumptions c04_log_entry_is_the_delivery_history.
